@@ -1658,3 +1658,387 @@ Qed.
 
 Lemma forallb_ev_okb l : forallb ev_okb l = true -> Forall ev_ok l.
 Proof. intros H. apply Forall_forall. intros e He. apply ev_okb_ok. rewrite forallb_forall in H. apply H, He. Qed.
+
+(** * Currency: the managers' copies are the kernel's views (histories without replayed headers) *)
+
+(** ** A commit-proof backfill that did not increase any signer set changed nothing *)
+Lemma nodup_n_snoc_new l n : ~ In n l -> List.length (nodup_n (l ++ [n])) = S (List.length (nodup_n l)).
+Proof.
+  induction l as [|x l IH]; intros Hn; [reflexivity|].
+  assert (Hx : x <> n) by (intros E; apply Hn; left; exact E).
+  assert (Hl : ~ In n l) by (intros E; apply Hn; right; exact E).
+  cbn [app nodup_n]. rewrite existsb_app. cbn [existsb]. rewrite orb_false_r.
+  destruct (N.eqb_spec x n) as [E|_]; [contradiction|]. rewrite orb_false_r.
+  destruct (existsb (N.eqb x) l); cbn [List.length]; rewrite (IH Hl); reflexivity.
+Qed.
+
+Lemma bit_count_add_new p i s : ~ In i (map fst p) -> bit_count (p ++ [(i, s)]) = S (bit_count p).
+Proof. intros H. unfold bit_count, proof_idxs. rewrite map_app. cbn [map fst]. apply nodup_n_snoc_new. exact H. Qed.
+
+Lemma merge_sigs_count kind h r t keys sigs : forall p p' av,
+  auth_proof keys kind h r t p -> merge_sigs kind h r t keys p sigs = (p', av) ->
+  p' = p \/ (bit_count p < bit_count p')%nat.
+Proof.
+  induction sigs as [|sg rest IH]; intros p p' av Hp; cbn [merge_sigs].
+  - intros E; inversion E; subst. left; reflexivity.
+  - assert (Hskip : forall q a, (let '(q', _) := merge_sigs kind h r t keys p rest in (q', false)) = (q, a) ->
+                                q = p \/ (bit_count p < bit_count q)%nat).
+    { intros q a. destruct (merge_sigs kind h r t keys p rest) as [q' a'] eqn:Hm. intros E; inversion E; subst.
+      eapply IH; eassumption. }
+    destruct (keyid_decode (ss_kid sg)) as [n|]; [|apply Hskip].
+    destruct (nth_n keys n) as [key|] eqn:Hk; [|apply Hskip].
+    destruct (verify_vote key kind h r t (ss_sig sg)) eqn:Hv; [|apply Hskip].
+    apply verify_vote_spec in Hv. rewrite Hv. intros Hm.
+    pose proof (add_sig_auth keys kind h r t p n key Hp Hk) as Hp1.
+    destruct (IH _ _ _ Hp1 Hm) as [E|Hlt].
+    + unfold add_sig in *. destruct (has_sig p (SVote key kind h r t)) eqn:Hhas; [left; exact E|].
+      right. subst p'. rewrite bit_count_add_new; [lia|].
+      intros Hin. apply in_map_iff in Hin as ([n0 s0]&En&Hin). cbn [fst] in En. subst n0.
+      destruct (Hp n s0 Hin) as (key0&Hk0&Es0). rewrite Hk in Hk0. inversion Hk0; subst key0.
+      unfold has_sig in Hhas. assert (X : existsb (fun e => sigd_eqb (snd e) (SVote key kind h r t)) p = true).
+      { apply existsb_exists. exists (n, s0). split; [exact Hin|]. cbn [snd]. rewrite Es0. apply sigd_eqb_refl. }
+      rewrite X in Hhas. discriminate.
+    + unfold add_sig in *. destruct (has_sig p (SVote key kind h r t)) eqn:Hhas; [right; exact Hlt|].
+      right. assert (Hn : ~ In n (map fst p)).
+      { intros Hin. apply in_map_iff in Hin as ([n0 s0]&En&Hin). cbn [fst] in En. subst n0.
+        destruct (Hp n s0 Hin) as (key0&Hk0&Es0). rewrite Hk in Hk0. inversion Hk0; subst key0.
+        unfold has_sig in Hhas. assert (X : existsb (fun e => sigd_eqb (snd e) (SVote key kind h r t)) p = true).
+        { apply existsb_exists. exists (n, s0). split; [exact Hin|]. cbn [snd]. rewrite Es0. apply sigd_eqb_refl. }
+        rewrite X in Hhas. discriminate. }
+      rewrite (bit_count_add_new p n (SVote key kind h r t) Hn) in Hlt. lia.
+Qed.
+
+Lemma pm_set_same {A} (m : list (bytes * A)) k v : pm_get m k = Some v -> pm_set m k v = m.
+Proof.
+  induction m as [|[k0 v0] m IH]; cbn [pm_get pm_set]; [discriminate|].
+  destruct (bytes_eqb k0 k) eqn:E.
+  - intros H; inversion H; subst. apply bytes_eqb_eq in E. subst. reflexivity.
+  - intros H. rewrite (IH H). reflexivity.
+Qed.
+
+Lemma backfill_fold_noinc keys h r entries : forall pc any pc',
+  auth_pmap keys KPrecommit h r pc ->
+  fold_left (fun acc e =>
+      let '(pc, any) := acc in
+      match pm_get pc (fst e) with
+      | None => (pc, any)
+      | Some target =>
+          let '(t', _, inc) := merge_sparse KPrecommit h r (fst e) keys target (snd e) in
+          (pm_set pc (fst e) t', any || inc)
+      end) entries (pc, any) = (pc', false) ->
+  pc' = pc.
+Proof.
+  induction entries as [|e rest IH]; intros pc any pc' Hpc; cbn [fold_left].
+  - intros E; inversion E; subst. reflexivity.
+  - destruct (pm_get pc (fst e)) as [target|] eqn:Hg; [|apply IH; exact Hpc].
+    unfold merge_sparse. destruct (merge_sigs KPrecommit h r (fst e) keys target (snd e)) as [t' av] eqn:Hm.
+    pose proof (pm_get_auth _ _ _ _ _ _ _ Hpc Hg) as Ht.
+    destruct (merge_sigs_count _ _ _ _ _ _ _ _ _ Ht Hm) as [E|Hlt].
+    + subst t'. rewrite (pm_set_same _ _ _ Hg). apply IH. exact Hpc.
+    + assert (Hinc : Nat.ltb (bit_count target) (bit_count t') = true) by (apply Nat.ltb_lt; exact Hlt).
+      rewrite Hinc, orb_true_r. intros Hf. exfalso.
+      assert (G : forall l pc0 pc1 b, fold_left (fun acc e0 =>
+                    let '(pc, any) := acc in
+                    match pm_get pc (fst e0) with
+                    | None => (pc, any)
+                    | Some target =>
+                        let '(t', _, inc) := merge_sparse KPrecommit h r (fst e0) keys target (snd e0) in
+                        (pm_set pc (fst e0) t', any || inc)
+                    end) l (pc0, true) = (pc1, b) -> b = true).
+      { induction l as [|e0 l IHl]; intros pc0 pc1 b; cbn [fold_left]; [intros E; inversion E; reflexivity|].
+        destruct (pm_get pc0 (fst e0)); [|apply IHl].
+        destruct (merge_sparse KPrecommit h r (fst e0) keys p (snd e0)) as [[t0 a0] i0]. cbn [orb]. apply IHl. }
+      specialize (G _ _ _ _ Hf). discriminate.
+Qed.
+
+Lemma with_pc_same v : with_pc v (v_pc v) = v.
+Proof. destruct v; reflexivity. Qed.
+
+(** ** The kernel's views are the last marked ones *)
+Definition not_mark (e : mev) : Prop := match e with EvMark _ _ => False | _ => True end.
+
+Definition SY3 (t t' : vs3) (new : list mev) : Prop :=
+  forall k, is_slot k -> last_mark k new (get3 t k) = get3 t' k.
+
+Definition SY (s s' : kstate) : Prop :=
+  exists new, st_ev s' = st_ev s ++ new /\ SY3 (views s) (views s') new.
+
+Lemma last_mark_app k n1 : forall n2 d, last_mark k (n1 ++ n2) d = last_mark k n2 (last_mark k n1 d).
+Proof.
+  induction n1 as [|e n1 IH]; intros n2 d; [reflexivity|].
+  cbn [app]. rewrite (last_mark_cons k e (n1 ++ n2)), (last_mark_cons k e n1). apply IH.
+Qed.
+
+Lemma SY_refl s : SY s s.
+Proof. exists []. split; [symmetry; apply app_nil_r|]. intros k _. reflexivity. Qed.
+
+Lemma SY_trans a b c : SY a b -> SY b c -> SY a c.
+Proof.
+  intros (n1&E1&H1) (n2&E2&H2). exists (n1 ++ n2). split; [rewrite E2, E1, app_assoc; reflexivity|].
+  intros k Hk. rewrite last_mark_app, (H1 k Hk). apply H2. exact Hk.
+Qed.
+
+Lemma SY_frame s s' : views s' = views s -> st_ev s' = st_ev s -> SY s s'.
+Proof.
+  intros Hv He. exists []. split; [rewrite He; symmetry; apply app_nil_r|]. rewrite Hv. intros k _. reflexivity.
+Qed.
+
+Lemma SY_of3 s s' new : st_ev s' = st_ev s ++ new -> SY3 (views s) (views s') new -> SY s s'.
+Proof. intros E H. exists new. split; assumption. Qed.
+
+Lemma SY_ev_nomark s e : not_mark e -> SY s (ev_w s e).
+Proof.
+  intros H. apply (SY_of3 _ _ [e]); [reflexivity|]. intros k _. destruct e; [destruct H| | |]; reflexivity.
+Qed.
+
+Lemma SY3_put_mark t vid w : SY3 t (put3 t vid w) [EvMark vid w].
+Proof.
+  destruct t as [[c v] n]. intros k Hk. cbn [last_mark]. unfold slot, put3, get3.
+  destruct (vid =? ViewIDVoting); [|destruct (vid =? ViewIDCommitting)];
+    destruct Hk as [->|[->| ->]]; reflexivity.
+Qed.
+
+Lemma SY_put_mark s vid w s2 :
+  views s2 = put3 (views s) vid w -> st_ev s2 = st_ev s ++ [EvMark vid w] -> SY s s2.
+Proof. intros Hv He. apply (SY_of3 _ _ [EvMark vid w]); [exact He|]. rewrite Hv. apply SY3_put_mark. Qed.
+
+Lemma SY_update_observers s : SY s (update_observers s).
+Proof. apply SY_frame; reflexivity. Qed.
+
+Lemma SY_increment s : SY s (increment_voting_round s).
+Proof.
+  set (s' := increment_voting_round s).
+  apply (SY_of3 _ _ [EvMark ViewIDVoting (k_vot s'); EvMark ViewIDNextRound (k_nxt s')]).
+  - unfold s', increment_voting_round, ev_w. cbn [st_ev]. rewrite <- app_assoc. reflexivity.
+  - intros k [->|[->| ->]]; reflexivity.
+Qed.
+
+Lemma SY_advance s : SY s (advance_voting_round s).
+Proof.
+  unfold advance_voting_round.
+  eapply SY_trans; [apply (SY_ev_nomark s (EvNil (k_vot s))); exact I|].
+  eapply SY_trans; [apply SY_increment|apply SY_update_observers].
+Qed.
+
+Lemma SY_jump s : SY s (jump_voting_round s).
+Proof.
+  unfold jump_voting_round.
+  eapply SY_trans; [apply SY_increment|].
+  eapply SY_trans; [|apply SY_update_observers].
+  apply SY_ev_nomark. exact I.
+Qed.
+
+Lemma SY_shift s voted : SY s (shift_voting_to_committing s voted).
+Proof.
+  set (s' := shift_voting_to_committing s voted).
+  assert (E : st_ev s' = st_ev s ++ [EvCommitted (v_h (k_com s)); EvMark ViewIDCommitting (k_com s');
+                                     EvMark ViewIDVoting (k_vot s'); EvMark ViewIDNextRound (k_nxt s')]).
+  { unfold s', shift_voting_to_committing, update_observers. cbn. rewrite <- !app_assoc. reflexivity. }
+  apply (SY_of3 _ _ _ E). intros k [->|[->| ->]]; reflexivity.
+Qed.
+
+Lemma SY_check_voting s s' : check_voting_precommit_shift s = Ok s' -> SY s s'.
+Proof.
+  unfold check_voting_precommit_shift, bind.
+  destruct (byz_majority _) as [maj|]; [|discriminate].
+  destruct (_ <? maj).
+  - destruct (_ =? _); intros E; inversion E; subst; [apply SY_advance|apply SY_refl].
+  - destruct (sm_mpc _).
+    + intros E; inversion E; subst. apply SY_advance.
+    + destruct (find _ _) as [p|]; intros E; inversion E; subst; [apply SY_shift|apply SY_refl].
+Qed.
+
+Lemma SY_check_next_round s s' : check_next_round_precommit_shift s = Ok s' -> SY s s'.
+Proof.
+  unfold check_next_round_precommit_shift, bind.
+  destruct (byz_minority _) as [mn|]; [|discriminate].
+  destruct (_ <? mn); [intros E; inversion E; subst; apply SY_refl|].
+  destruct (byz_majority _) as [maj|]; [|discriminate].
+  destruct (maj <=? _).
+  - intros E. eapply SY_trans; [apply SY_jump|apply SY_check_voting; exact E].
+  - intros E; inversion E; subst. apply SY_jump.
+Qed.
+
+Lemma SY_check_prevote s s' : check_prevote_shift s = Ok s' -> SY s s'.
+Proof.
+  unfold check_prevote_shift, bind.
+  destruct (byz_minority _) as [mn|]; [|discriminate].
+  destruct (_ <? mn); intros E; inversion E; subst; [apply SY_refl|apply SY_jump].
+Qed.
+
+Lemma SY_backfill s p : auth_view (k_com s) -> SY s (backfill_commit s p).
+Proof.
+  intros [_ Hpc]. unfold backfill_commit.
+  destruct (fold_left _ _ _) as [pc' any] eqn:Hf.
+  destruct any.
+  - eapply (SY_put_mark s ViewIDCommitting); reflexivity.
+  - rewrite (backfill_fold_noinc _ _ _ _ _ _ _ Hpc Hf), with_pc_same.
+    apply SY_frame; reflexivity.
+Qed.
+
+Lemma SY_add_ph s p s' : auth_state s -> add_ph s p = Ok s' -> SY s s'.
+Proof.
+  intros Ha. unfold add_ph, bind.
+  destruct (find_view _ _ _) as [[vid st]|]; [|discriminate].
+  destruct (negb (st =? ViewFound)); [intros E; inversion E; subst; apply SY_refl|].
+  destruct (existsb _ _); [intros E; inversion E; subst; apply SY_refl|].
+  set (w := bump (with_phs (get_view s vid) (v_phs (get_view s vid) ++ [p]))).
+  set (s1 := put_view s vid w).
+  set (s2 := ev_w (log_w (set_rounds s1 _) _) _).
+  assert (T2 : SY s s2).
+  { apply (SY_put_mark s vid w).
+    - unfold s2, s1. rewrite <- views_put_view. reflexivity.
+    - unfold s2. cbn [ev_w st_ev log_w set_rounds]. unfold s1. rewrite st_ev_put_view.
+      rewrite (get_view_get3 (put_view s vid w)), views_put_view, get3_put3_same. reflexivity. }
+  assert (A2 : auth_view (k_com s2)).
+  { assert (A1 : auth_state s1).
+    { apply put_view_auth; [exact Ha|]. apply auth_view_bump.
+      eapply auth_view_same; [apply same_votes_with_phs|apply get_view_auth; exact Ha]. }
+    exact (proj1 A1). }
+  destruct (negb _); [intros E; inversion E; subst; exact T2|].
+  assert (T3 : SY s (backfill_commit s2 p)) by (eapply SY_trans; [exact T2|apply SY_backfill; exact A2]).
+  destruct (vid =? ViewIDVoting).
+  - destruct (pm_get _ _).
+    + intros E. eapply SY_trans; [exact T3|apply SY_check_voting; exact E].
+    + intros E; inversion E; subst; exact T3.
+  - intros E; inversion E; subst; exact T3.
+Qed.
+
+Lemma SY_apply_votes kind s vid h r ups s' : apply_votes kind s vid h r ups = Ok s' -> SY s s'.
+Proof.
+  unfold apply_votes.
+  set (v := get_view s vid) in *.
+  set (votes' := fold_left (fun m e => pm_set m (fst e) (snd e)) ups (view_votes kind v)).
+  set (v1 := if kind =? KPrevote then with_pv v votes' else with_pc v votes').
+  set (sm' := if kind =? KPrevote then sum_set_prevotes _ _ _ else _).
+  set (v2 := bump (with_sum v1 sm')).
+  set (s1 := put_view s vid v2).
+  set (s2 := ev_w (log_w (set_rounds s1 _) _) _).
+  assert (T2 : SY s s2).
+  { apply (SY_put_mark s vid v2).
+    - unfold s2, s1. rewrite <- views_put_view. reflexivity.
+    - unfold s2. cbn [ev_w st_ev log_w set_rounds]. unfold s1. rewrite st_ev_put_view. reflexivity. }
+  destruct (kind =? KPrevote).
+  - destruct (vid =? ViewIDNextRound).
+    + intros E. eapply SY_trans; [exact T2|apply SY_check_prevote; exact E].
+    + intros E; inversion E; subst. exact T2.
+  - destruct (vid =? ViewIDVoting).
+    + intros E. eapply SY_trans; [exact T2|apply SY_check_voting; exact E].
+    + destruct (vid =? ViewIDNextRound).
+      * intros E. eapply SY_trans; [exact T2|apply SY_check_next_round; exact E].
+      * intros E; inversion E; subst. exact T2.
+Qed.
+
+Lemma SY_handle_future kind s m s' res : handle_future_votes kind s m = Ok (s', res) -> SY s s'.
+Proof.
+  unfold handle_future_votes.
+  destruct (if vm_h m =? _ then _ else _) as [keys|]; [|intros E; inversion E; subst; apply SY_refl].
+  destruct keys; [intros E; inversion E; subst; apply SY_refl|].
+  destruct (negb (bytes_eqb _ _)); [intros E; inversion E; subst; apply SY_refl|].
+  destruct (match coll_of _ _ with Some c => c | None => _ end) as [spkh stored].
+  destruct (fold_left _ _ _) as [[full' allv] inc].
+  destruct (negb allv); [intros E; inversion E; subst; apply SY_refl|].
+  destruct (negb inc); intros E; inversion E; subst; [apply SY_refl|].
+  apply SY_frame; reflexivity.
+Qed.
+
+Lemma SY_handle_votes kind s m s' res : handle_votes kind s m = Ok (s', res) -> SY s s'.
+Proof.
+  unfold handle_votes, bind.
+  destruct (vm_proofs m) as [|vp0 vpl] eqn:Hp; [intros E; inversion E; subst; apply SY_refl|].
+  rewrite <- Hp. clear Hp vp0 vpl.
+  destruct (find_view _ _ _) as [[vid st]|]; [|discriminate].
+  destruct (st =? ViewFuture); [apply SY_handle_future|].
+  destruct (negb (st =? ViewFound)); [intros E; inversion E; subst; apply SY_refl|].
+  destruct (negb (bytes_eqb _ _)); [intros E; inversion E; subst; apply SY_refl|].
+  destruct (sigs_to_add _ _ _) as [|x0 l0] eqn:Hsa; [intros E; inversion E; subst; apply SY_refl|]. rewrite <- Hsa. clear Hsa x0 l0.
+  destruct (build_updates _ _ _) as [ups allv].
+  destruct ups as [|u ups'] eqn:Hu; [intros E; inversion E; subst; apply SY_refl|]. rewrite <- Hu in *. clear Hu.
+  destruct (apply_votes _ _ _ _ _ _) as [s2|] eqn:Ha; [|discriminate].
+  intros E; inversion E; subst. eapply SY_apply_votes; eassumption.
+Qed.
+
+Lemma SY_handle_ph_loop fuel : forall backfilled s p s' res,
+  auth_state s -> handle_ph_loop fuel backfilled s p = Ok (s', res) -> SY s s'.
+Proof.
+  assert (Hbody : forall s p (proposer : option N) (prev_hash : bytes) (prev_vs view_vs : valset) s' res,
+    auth_state s ->
+    (let hd := ph_hdr p in
+      if negb (hd_ok hd) then Ok (s, HandleProposedHeaderBadBlockHash)
+      else if negb (vs_ok (hd_vals hd) && vs_ok (hd_next hd)) then Ok (s, HandleProposedHeaderBadBlockHash)
+      else if negb (valset_equal (hd_vals hd) view_vs) then Ok (s, HandleProposedHeaderBadBlockHash)
+      else
+        match proposer with
+        | None => Ok (s, HandleProposedHeaderBadSignature)
+        | Some key =>
+          if negb (verify_prop key (ph_content p) (ph_round p) (ph_sig p)) then Ok (s, HandleProposedHeaderBadSignature)
+          else if negb (hd_height hd =? k_init_h s) && negb (bytes_eqb (hd_prev hd) prev_hash)
+          then Ok (s, HandleProposedHeaderBadBlockHash)
+          else if negb (bytes_eqb (vs_pkh prev_vs) (cp_pkh (hd_pcp hd)))
+          then Ok (s, HandleProposedHeaderBadPrevCommitProofPubKeyHash)
+          else
+            let accept := bind (add_ph s p) (fun s' => Ok (s', HandleProposedHeaderAccepted)) in
+            if k_init_h s <? hd_height hd then
+              match vs_keys prev_vs with
+              | [] => Ok (s, HandleProposedHeaderBadPrevCommitProofPubKeyHash)
+              | _ =>
+                match validate_finalized (sub64 (hd_height hd) 1) (cp_round (hd_pcp hd)) (vs_keys prev_vs)
+                        (hd_prev hd) (cp_proofs (hd_pcp hd)) with
+                | (_, false) => Ok (s, HandleProposedHeaderBadPrevCommitProofDoubleSigned)
+                | (None, true) => Ok (s, HandleProposedHeaderBadPrevCommitProofSignature)
+                | (Some bits, true) =>
+                    let avail := sum_pows (vs_pows prev_vs) in
+                    bind (byz_majority avail) (fun maj =>
+                    if idx_power (vs_pows prev_vs) bits <? maj
+                    then Ok (s, HandleProposedHeaderBadPrevCommitVoteCount)
+                    else accept)
+                end
+              end
+            else accept
+        end) = Ok (s', res) ->
+    SY s s').
+  { intros s p proposer prev_hash prev_vs view_vs s' res Ha. cbv zeta.
+    assert (Hsame : forall r0, Ok (s, r0) = Ok (s', res) -> SY s s')
+      by (intros r0 E; inversion E; subst; apply SY_refl).
+    destruct (negb (hd_ok _)); [apply Hsame|].
+    destruct (negb (vs_ok _ && vs_ok _)); [apply Hsame|].
+    destruct (negb (valset_equal _ _)); [apply Hsame|].
+    destruct proposer as [key|]; [|apply Hsame].
+    destruct (negb (verify_prop _ _ _ _)); [apply Hsame|].
+    destruct (negb (hd_height (ph_hdr p) =? k_init_h s) && negb (bytes_eqb (hd_prev (ph_hdr p)) prev_hash)); [apply Hsame|].
+    destruct (negb (bytes_eqb (vs_pkh prev_vs) _)); [apply Hsame|].
+    assert (Hacc : bind (add_ph s p) (fun s' => Ok (s', HandleProposedHeaderAccepted)) = Ok (s', res) -> SY s s').
+    { unfold bind. destruct (add_ph s p) eqn:Hadd; [|discriminate].
+      intros E; inversion E; subst. eapply SY_add_ph; eassumption. }
+    destruct (k_init_h s <? _); [|exact Hacc].
+    destruct (vs_keys prev_vs); [apply Hsame|].
+    destruct (validate_finalized _ _ _ _ _) as [[bits|] [|]]; try apply Hsame.
+    unfold bind at 1. destruct (byz_majority _); [|discriminate].
+    destruct (_ <? _); [apply Hsame|exact Hacc]. }
+  induction fuel as [|f IH]; intros backfilled s p s' res Ha; cbn [handle_ph_loop];
+    destruct (ph_check s p) as [status proposer prev_hash prev_vs view_vs].
+  all: assert (Hsame : forall r0, Ok (s, r0) = Ok (s', res) -> SY s s')
+         by (intros r0 E; inversion E; subst; apply SY_refl).
+  all: destruct (status =? PHCheckAlreadyHaveSignature); [apply Hsame|].
+  all: destruct (status =? PHCheckSignerUnrecognized); [apply Hsame|].
+  all: destruct (status =? PHCheckRoundTooOld); [apply Hsame|].
+  all: destruct (status =? PHCheckRoundTooFarInFuture); [apply Hsame|].
+  all: destruct (status =? PHCheckNextHeight).
+  - destruct backfilled; apply Hsame.
+  - apply Hbody. exact Ha.
+  - destruct backfilled; [apply Hsame|].
+    unfold bind at 1. destruct (handle_votes KPrecommit s (vote_msg_of_pcp p)) as [[s1 r1]|] eqn:Hv; [|discriminate].
+    cbn [fst]. intros E. eapply SY_trans; [eapply SY_handle_votes; exact Hv|].
+    eapply IH; [|exact E]. eapply auth_handle_votes; [right; reflexivity|exact Ha|exact Hv].
+  - apply Hbody. exact Ha.
+Qed.
+
+Definition not_replay (o : op) : bool := match o with OpReplay _ _ => false | _ => true end.
+
+Theorem SY_step s o s' res : auth_state s -> not_replay o = true -> step s o = Ok (s', res) -> SY s s'.
+Proof.
+  intros Ha. destruct o as [p|m|m|x cp]; cbn [step not_replay]; intros Hn; try discriminate.
+  - unfold handle_ph. destruct (ph_key p); [apply SY_handle_ph_loop; exact Ha|intros E; inversion E; subst; apply SY_refl].
+  - apply SY_handle_votes.
+  - apply SY_handle_votes.
+Qed.
